@@ -183,11 +183,17 @@ class HistogramCollection(Container[Histogram1D], ObjectWithBinning):
             )
             for item in a_dict["histograms"]
         )
+        histograms = list(histograms)
+        if not histograms and "binning" in a_dict:
+            return HistogramCollection(
+                binning=BinningBase.from_dict(dict(a_dict["binning"]))
+            )
         return HistogramCollection(*histograms)
 
     def to_dict(self) -> Dict[str, Any]:
         return {
             "histogram_type": "histogram_collection",
+            "binning": self.binning.to_dict(),
             "histograms": [h.to_dict() for h in self.histograms],
         }
 
